@@ -521,12 +521,45 @@ func switchIntCases(fn *ssa.Function) []int64 {
 
 func c19Tables(w *World, r *Report) {
 	ri := r.Rule("C19.5", 2, "the key-size tables of the signers cover the same key sizes")
-	pairs := [][2]string{{"getECDSAAlgorithm", "ECDSA"}, {"getRSAAlgorithm", "RSA"}}
+	// the size tables are found by shape (a package-level function of one int parameter that switches
+	// on it and panics otherwise); RSA moduli are >= 1024 bits, curve sizes are below that
+	tableOf := func(pkg, kind string) *ssa.Function {
+		var out *ssa.Function
+		for _, fn := range w.Funcs {
+			if fnPkgPath(fn) != modPath+"/"+pkg || w.isMockFn(fn) || fn.Parent() != nil || fn.Signature.Recv() != nil || len(fn.Params) != 1 {
+				continue
+			}
+			if b, ok := fn.Params[0].Type().Underlying().(*types.Basic); !ok || b.Info()&types.IsInteger == 0 {
+				continue
+			}
+			cs := switchIntCases(fn)
+			if len(cs) == 0 {
+				continue
+			}
+			hasPanic := false
+			eachInstr(fn, func(in ssa.Instruction) {
+				if _, ok := in.(*ssa.Panic); ok {
+					hasPanic = true
+				}
+			})
+			if !hasPanic {
+				continue
+			}
+			if (kind == "RSA") == (cs[0] >= 1024) {
+				if out != nil {
+					return nil
+				}
+				out = fn
+			}
+		}
+		return out
+	}
+	pairs := [][2]string{{"ECDSA key-size table", "ECDSA"}, {"RSA key-size table", "RSA"}}
 	for _, p := range pairs {
-		a := w.Func("internal/keystore", p[0])
-		b := w.Func("internal/rules/endpoint/authstrategy", p[0])
+		a := tableOf("internal/keystore", p[1])
+		b := tableOf("internal/rules/endpoint/authstrategy", p[1])
 		if a == nil || b == nil {
-			r.Undecided(ri, p[0]+" not found in keystore / authstrategy")
+			r.Undecided(ri, p[0]+" not found (or ambiguous) in keystore / authstrategy")
 			continue
 		}
 		r.Analysed(w.FnName(a), w.FnName(b))
